@@ -5,8 +5,11 @@ import json, os, subprocess, sys, tempfile, shutil, time
 VERIF = os.path.dirname(os.path.dirname(os.path.abspath(__file__)))
 sd = os.path.join(VERIF, 'seeded')
 rows = []
+ONLY_NEW = '--new' in sys.argv      # only seeds that have no meta.json yet
 for name in sorted(os.listdir(sd)):
     d = os.path.join(sd, name)
+    if ONLY_NEW and os.path.exists(os.path.join(d, 'meta.json')):
+        continue
     pid = name.split('-')[0]
     agent = json.load(open(os.path.join(d, 'meta.agent.json'))) if os.path.exists(os.path.join(d, 'meta.agent.json')) else {}
     tmp = tempfile.mkdtemp(prefix='seed_', dir='/dev/shm')
